@@ -46,12 +46,13 @@ Definition ainv (s : st) (a : nat) : Prop :=
   (kd x = KLocal \/ kd x = KPush -> a = 0) /\
   (inpush (pc x) = true -> kd x = KPush) /\
   match pc x with
-  | Idle | Ext | OW | ON | OB | OC | X0 | X1 | X2 | E0 | E1 | E2 => True
+  | Idle | Ext | OW | ON | OB | OC | X0 | E0 | E1 | E2 => True
+  | X1 | X2 => kd x <> KLocal
   | XC => emptyck B x = false /\ nid x = newid B x /\ local_ok s x
   | XS => nid x < B /\ local_ok s x /\
           if lockedB x then lock_ok s x /\ (kd x = KLocal -> S (bstart (heap s (lb x)) + li x) <= tix s)
           else claim_ok s a x /\ ghi x = bstart (heap s (lb x)) + nexti x /\ (kd x = KLocal -> ghi x <= tix s)
-  | XT => lock_ok s x /\ kd x <> KLocal /\ ppi x = bstart (heap s (lb x)) + li x
+  | XT => lock_ok s x /\ kd x <> KLocal /\ ppi x = bstart (heap s (lb x)) + li x /\ lockedB x = true
   | XR => lock_ok s x /\ kd x <> KLocal
   | XN => lock_ok s x /\ ppi x = bstart (heap s (lb x)) + li x /\ pend x = bstart (heap s (lb x)) + B /\ pend x <= tix s
   | XH => lock_ok s x /\ ppi x = bstart (heap s (lb x)) + li x /\ pend x = bstart (heap s (lb x)) + B /\ pend x <= tix s /\
